@@ -54,6 +54,23 @@ HasX(x) == x.n = "cap" \/ (x.n = "bin" /\ (HasX(x.l) \/ HasX(x.r)))
 SubstX(x) == IF x.n = "cap" THEN ILit(XVal) ELSE IF x.n = "bin" THEN BinE(x.op, SubstX(x.l), SubstX(x.r)) ELSE x
 OpenExprs == {x \in OD1 \cup OD2 : HasX(x)}
 
+\* the edge family: operands at the 64-bit boundaries.  TLC integers are 32 bit, so these literals are SENTINELS
+\* (|v| > MaxInt: outside the model) that the harness renders as 2^63-1, -2^63, 2^53, 2^53+1, 2^62, 3037000500, 2^32.
+\* The model does not evaluate them: it enumerates the shapes and says only whether a literal zero divides; what is
+\* compared is the property itself - the optimised and the unoptimised compile of the same text agree on value,
+\* type and runtime error.  A compound operand stands only where it cannot be a zero divisor or an exponent.
+EdgeInts  == {2000000001, -2000000001, 2000000002, 2000000003, -2000000003, 2000000004, 2000000005, 2000000006}
+EdgeLits  == {ILit(i) : i \in EdgeInts}
+EdgeSmall == {ILit(i) : i \in {-1, 0, 1, 2, 3, 7}} \cup {FLit(<<1,2>>), FLit(<<2,1>>), FLit(<<0,1>>)}
+ED1 == {x \in {BinE(op, l, r) : op \in Ops, l \in EdgeLits \cup EdgeSmall, r \in EdgeLits \cup EdgeSmall} :
+          (x.l \in EdgeLits \/ x.r \in EdgeLits) /\ ExpOK(x.op, x.r)}
+ED2 == {BinE(op, l, r) : op \in Ops \ {"**"}, l \in ED1, r \in {ILit(-1), ILit(0), ILit(1), ILit(2), FLit(<<2,1>>)}} \cup
+       {BinE(op, l, r) : op \in {"+", "-", "*"}, l \in {ILit(-1), ILit(1), ILit(2), FLit(<<1,2>>)}, r \in ED1}
+EdgeExprs == ED1 \cup (IF Deep THEN ED2 ELSE {x \in ED2 : x.l \in ED1 /\ x.l.l \in EdgeLits /\ x.l.r \in {ILit(-1), ILit(1), ILit(0)}})
+IsZeroLit(x) == (x.n = "int" /\ x.v = 0) \/ (x.n = "float" /\ x.v[1] = 0)
+RECURSIVE EdgeZeroDiv(_)
+EdgeZeroDiv(x) == x.n = "bin" /\ (EdgeZeroDiv(x.l) \/ EdgeZeroDiv(x.r) \/ (x.op \in {"/", "%"} /\ IsZeroLit(x.r)))
+
 IsLit(e) == e.n \in {"int", "float"}
 LitVal(e) == IF e.n = "int" THEN IntV(e.v) ELSE RatV(e.v[1], e.v[2])
 ValLit(v) == IF v.k = "i" THEN ILit(v.v) ELSE FLit(<<v.n, v.d>>)
@@ -108,7 +125,7 @@ CheckerRejects(x) ==
 SameVal(a, b) == IF IsNum(a) /\ IsNum(b) THEN a.k = b.k /\ REq(ToRat(a), ToRat(b)) ELSE a = b
 
 VARIABLE e
-Init == e \in (IF Family = "open" THEN OpenExprs ELSE ConstExprs)
+Init == e \in (IF Family = "open" THEN OpenExprs ELSE IF Family = "edge" THEN EdgeExprs ELSE ConstExprs)
 Next == UNCHANGED e
 Spec == Init /\ [][Next]_e
 
@@ -127,5 +144,10 @@ FoldsToLiteral == LET f == Fold(e) IN (~f.rej /\ ~f.ovf /\ ~HasX(e)) => IsLit(f.
 \* an operator with a non-constant operand is never folded away: X survives folding
 KeepsNonConstant == LET f == Fold(e) IN (~f.rej /\ ~f.ovf /\ HasX(e)) => HasX(f.e)
 
-Emit == EmitCases => PrintT(<<"CASE", ToJson([e |-> e, f |-> Fold(e), v |-> EvalConst(SubstX(e)), ckrej |-> CheckerRejects(e), ckrejon |-> CheckerRejects(Fold(e).e), open |-> HasX(e)])>>)
+Emit == EmitCases =>
+        IF Family = "edge"
+        THEN PrintT(<<"CASE", ToJson([e |-> e, f |-> [rej |-> EdgeZeroDiv(e), ovf |-> ~EdgeZeroDiv(e), e |-> e],
+                                      v |-> [v |-> OvfV, err |-> FALSE, ovf |-> TRUE], ckrej |-> CheckerRejects(e), ckrejon |-> FALSE,
+                                      open |-> FALSE, edge |-> TRUE])>>)
+        ELSE PrintT(<<"CASE", ToJson([e |-> e, f |-> Fold(e), v |-> EvalConst(SubstX(e)), ckrej |-> CheckerRejects(e), ckrejon |-> CheckerRejects(Fold(e).e), open |-> HasX(e)])>>)
 =============================================================================
